@@ -64,6 +64,7 @@ pub struct KIntResMixed;
 pub struct KAttrs;
 pub struct KDup;
 pub struct KKVStore;
+pub struct KLend;
 pub struct KIOPort;
 pub struct KLife;
 pub struct KGrpA;
@@ -242,6 +243,7 @@ single!(KAttrs, Attrs, ATTRS, call_attrs, m, []);
 single!(KLife, Life<'static, u64>, LIFE, call_life, m, []);
 single!(KDup, Dup, DUP, call_dup, m, [O: IntoDyn<KDup>,]);
 single!(KKVStore, KVStore, KVSTORE, call_kvstore, m, []);
+single!(KLend, Lend<'static>, LEND, call_lend, m, []);
 single!(KIOPort, IOPort, IOPORT, call_ioport, r, []);
 impl<T: Dup + 'static> IntoDyn<KDup> for T {
     fn into_dyn(self) -> Box<dyn DynObj> {
